@@ -2,3 +2,8 @@ pub mod bed;
 pub mod coverage;
 pub mod extsort;
 mod intervaltree;
+/// Verification hooks: re-export of the private interval index (feature `verif-hooks`).
+#[cfg(feature = "verif-hooks")]
+pub mod verif_hooks {
+    pub use crate::intervaltree::*;
+}
